@@ -28,7 +28,12 @@ CLAIMED = {
          "C01 (tools/templates/OblC01.v, compiled per run): for every fixed-layout database definition (342 of 417, 2650 "
          "fields) and EVERY payload, the translated decode function computes exactly spec_decode (metadata from the record; "
          "value from (p / 2^BitOffset) mod 2^BitLength under signedness, not-available rule, resolution, range, lookup table). "
-         "All 417 definitions (incl. variable-layout ones) are compared statement by statement with the template by kernel "
+         "C01_var (same module, per run; SpecVar.v / SpecVarProofs.v): for ALL 417 definitions that own a function - the 75 "
+         "variable-layout ones included (STRING_LAU / STRING_LZ, fields without BitOffset, BINARY with BitLengthField, INDIRECT_LOOKUP) - "
+         "and EVERY payload the translated decoder computes exactly spec_decode_var, the specification that threads the bit position "
+         "through the fields; C01_var_extends: on fixed-layout definitions it is spec_decode; C01_var_offsets: a database BitOffset and "
+         "the running position agree. "
+         "All 417 definitions are compared statement by statement with the template by kernel "
          "computation; lookup dictionaries are proved equal to the database tables. C01_in_range_total / C01_within_tolerance_total "
          "(RangeProofs.v, Flocq): an available raw value whose exact product raw x resolution lies inside [RangeMin, RangeMax] (also: "
          "within the decoder's 1e-12 tolerance) is never rejected and decodes to the correctly rounded double of raw x resolution "
